@@ -120,6 +120,18 @@ def run(ctx):
             n = 150 if not thorough else 4000
             corpus = ["T 8,1,c s:0102030405:p2;s:0607:f;w:p1,f,f;s:@70000.3:f;r:aabbcc:1,1;r:@5000.9:100,1;x;s:09:f",
                       "T 2,1,s s:01:a;s:02:f;s:03:f;w:f,f;r:ffee;k;s:05:f"]
+            def judge(line, ri, rm):
+                if not line.startswith("T "):
+                    return None
+                if ri.startswith("CRASH") or ri.startswith("EXC") or "TIMEOUT" in ri or ri.endswith("FAIL"):
+                    return "impl-crashes"
+                ei, em = ri.rsplit(" E", 1)[-1] if " E" in ri else "", rm.rsplit(" E", 1)[-1] if " E" in rm else ""
+                if any(a == "0" and b == "1" for a, b in zip(ei, em)) and ri.rsplit(" E", 1)[0] == rm.rsplit(" E", 1)[0]:
+                    return "epollout-not-armed-with-queued-data"
+                return "differs" if ri != rm else None
+            v.shrinker = lambda line: vlib.shrink_line(
+                ctx, impl_exe, model_exe, line, lambda l: (" ".join(l.split(" ")[:2]), l.split(" ", 2)[2].split(";")),
+                lambda h, ops: h + " " + ";".join(ops), judge, tag="c01s") if line.startswith("T ") else (line, 0)
             lines = corpus + [gen_case(rng) for _ in range(n)]
             stress = ["S 4 %d 40000" % (150 if not thorough else 2000), "S 1 %d 200000" % (60 if not thorough else 600),
                       "S 8 %d 3000" % (300 if not thorough else 4000)]
